@@ -192,7 +192,7 @@ contract("buidl.helper.decode_base58", props=("C09",), params={"s": STR},
 # ------------------------------------------------------------------------------------------- bech32 checksum
 # all 32^7 symbol sequences of length 7; because the first six symbols reach every 30-bit register state, this also
 # shows that the loop body is the GF(32) shift-register step of BIP173 for every (state, symbol) pair
-contract(H + "polymod7", props=("C09", "C20"), params={"v%d" % i: V5 for i in range(7)}, bv=40, max_paths=64,
+contract(H + "polymod7", props=("C09", "C20"), params={"v%d" % i: V5 for i in range(7)}, bv=40, timeout_ms=30000, max_paths=64,
          ensures=["returns()", "result == spec.text.bech32_polymod([v0, v1, v2, v3, v4, v5, v6])", "0 <= result < 2**30"],
          gen=lambda rng, tier: ({"v%d" % i: rng.randrange(32) for i in range(7)} for _ in range(10**6)))
 
@@ -247,7 +247,7 @@ def _gen_g32(rng, tier):
 
 
 for _n in (2, 5, 20, 32):
-    contract("buidl.bech32.group_32#len%d" % _n, props=("C09",), params={"s": "bytes:%d" % _n}, bv=64,
+    contract("buidl.bech32.group_32#len%d" % _n, props=("C09",), params={"s": "bytes:%d" % _n}, bv=64, timeout_ms=30000,
              ensures=["returns()", "result == spec.text.regroup(s, 8, 5, True)"], gen=_gen_g32 if _n == 2 else None)
 
 
@@ -359,7 +359,7 @@ SEGWIT_REASONS = ("bech32", "hrp", "length", "version", "constant", "padding", "
 for _r in SEGWIT_REASONS:
     contract("buidl.bech32.decode_bech32#rejects-" + _r, props=("C09",), params={"s": STR},
              requires=["spec.text.segwit_reject_reason(s) == %r" % _r], ensures=["not returns()"],
-             gen=_gen_reason(_r, [a for a in BIP_INVALID if T.segwit_reject_reason(a) == _r]))
+             gen=_gen_reason(_r, sorted([a for a in BIP_INVALID if T.segwit_reject_reason(a) == _r], key=lambda a: not a.startswith("bcrtx"))))
 _ACC = ["returns()", "result[0] in spec.text.HRP_NETS[spec.text.segwit_addr_decode(s)[0]]",
         "(result[1], result[2]) == spec.text.segwit_addr_decode(s)[1:]"]
 contract("buidl.bech32.decode_bech32#accepts", props=("C09",), params={"s": STR},
